@@ -138,17 +138,43 @@ func (g *G) variations(thorough bool) {
 			t.keks = append(t.keks, kekEntry{label: "", kek: r.Bytes(16)})
 			g.run(t, q, b.intent(), "kek-empty", "kek-under-empty-label:"+b.describe(), nil)
 		}
-		// ---- join-nonce out of range ----
-		for _, jn := range []int{1 << 24, 1<<24 + 5, -1, 1 << 32, -(1 << 31), 1<<32 + 7} {
-			a := g.randomAct(r.Intn(4))
+		// ---- join-nonce out of range
+		//      (audit finding 7: values that are 0..2^24-1 modulo 2^32 were answered Success): must be refused, mirrored ----
+		for i, jn := range []int{1 << 24, 1<<24 + 5, -1, 1 << 32, -(1 << 31), 1<<32 + 7, -(1 << 32) + 5, -(1 << 32), -(1 << 24), -(1 << 32) + (1<<24 - 1), -(1 << 40) + 77} {
+			a := g.randomAct((i + rep) % 4)
 			a.joinNonce = jn
-			g.run(a.table(), g.request(&a), "INone", "joinnonce-range", fmt.Sprintf("joinnonce=%d:%s", jn, a.describe()), nil)
+			g.run(a.table(), g.request(&a), "IMember", "joinnonce-range", fmt.Sprintf("joinnonce=%d:%s", jn, a.describe()), nil)
 		}
-		// ---- RxDelay out of range (uint8 conversion) ----
-		for _, rx := range []int64{16, 255, 256, 257, 271, -1, -256, 1 << 40} {
-			a := g.randomAct(r.Intn(4))
+		// ---- RxDelay across the int range (audit finding 2: 256..271, -255, 65541 were answered Success with RxDelay mod 256):
+		//      everything outside 0..15 must be refused with a mirrored answer ----
+		for i, rx := range []int64{16, 17, 255, 256, 257, 263, 271, 272, 511, 512, 65536, 65541, 1 << 31, 1<<32 + 3, 1 << 40, 1<<63 - 1,
+			-1, -15, -240, -241, -255, -256, -65535, -(1 << 31), -(1 << 63)} {
+			a := g.randomAct((i + rep) % 4)
 			a.rxDelay = rx
-			g.run(a.table(), g.request(&a), "INone", "rxdelay-range", fmt.Sprintf("rxdelay=%d:%s", rx, a.describe()), nil)
+			g.run(a.table(), g.request(&a), "IMember", "rxdelay-range", fmt.Sprintf("rxdelay=%d:%s", rx, a.describe()), nil)
+		}
+		// ---- ReceiverID is a well-formed EUI64 other than the JoinEUI inside the frame (audit finding 3): for a join-request
+		//      and a rejoin type 1 the frame's JoinEUI counts, the answer must be usable by the device ----
+		for _, fl := range []struct {
+			kind   int
+			optneg bool
+		}{{kJoin, true}, {kJoin, false}, {kRejoin1, true}} {
+			a := g.randomAct(fl.kind)
+			a.dls &= 0x7f
+			if fl.optneg {
+				a.dls |= 0x80
+			}
+			a.receiver = g.hexText(r.Bytes(8), true)
+			t := a.table()
+			g.activationOn(t.handler(), t, &a, "receiver-not-the-joineui", "receiver-other-eui64:", nil)
+		}
+		// ---- join-request with RFU bits set in the MHDR octet and a MIC that is correct for the octets as sent
+		//      (known finding C16-2, root in the frame codec: the MIC is recomputed over the re-encoded MHDR) ----
+		for _, mhdr := range []byte{0x04, 0x08, 0x10, 0x1c} {
+			a := g.randomAct(kJoin)
+			t, q := a.table(), g.request(&a)
+			q.phy = sp(hex.EncodeToString(a.dev.joinRequestFrameMHDR(a.devNonce, mhdr)))
+			g.run(t, q, a.intent(), "join-mhdr-rfu", fmt.Sprintf("join:mhdr-rfu-bits=%02x:%s", mhdr, a.describe()), nil)
 		}
 		// ---- CFList that is not a well-formed CFList ----
 		for i := 0; i < 5; i++ {
@@ -336,7 +362,10 @@ func (g *G) malformed(thorough bool) {
 				if val == "" {
 					val = "0a0b"
 				}
-				intent := "IMalformed"
+				intent := "IMember" // a member of the typed payload: mirrored answer of the right type, not Success
+				if field == "SenderToken" {
+					intent = "IMalformed" // a member of the BASE payload: nothing decoded, bare error
+				}
 				switch how {
 				case "odd-length":
 					val = val[:len(val)-1]
@@ -394,22 +423,46 @@ func (g *G) malformed(thorough bool) {
 		{"transaction-id-fraction", strings.Replace(good, `"TransactionID":`, `"TransactionID":1.5,"X":`, 1)},
 		{"sender-id-number", strings.Replace(good, `"SenderID":`, `"SenderID":5,"X":`, 1)},
 		{"message-type-object", strings.Replace(good, `"MessageType":`, `"MessageType":{},"X":`, 1)},
-		{"rxdelay-string", strings.Replace(good, `"MACVersion":`, `"RxDelay":"1","MACVersion":`, 1) + ""},
-		{"rxdelay-2^63", strings.Replace(good, `"MACVersion":`, `"RxDelay":9223372036854775808,"Y":`, 1)},
-		{"deveui-number", strings.Replace(good, `"DevEUI":`, `"DevEUI":12,"X":`, 1)},
-		{"phypayload-array", strings.Replace(good, `"PHYPayload":`, `"PHYPayload":[1,2],"X":`, 1)},
 		{"not-json", "ProtocolVersion=1.0&MessageType=JoinReq"},
 	}
 	for _, b := range bad {
 		body := b.body
-		if b.name == "rxdelay-string" {
-			// the later RxDelay key of the good body would overwrite nothing: the decoder stops at the first error
-		}
 		q := &req{raw: body}
 		if body == "" {
 			q.raw = " " // req.raw == "" means "structured"; a blank body is rejected the same way
 		}
 		g.run(a.table(), q, "IMalformed", "bad-json", "bad-json:"+b.name, nil)
+	}
+	// members of the TYPED payload that encoding/json itself refuses (wrong JSON kind, number out of range): the base
+	// payload decodes, so the answer must be the mirrored JoinAns / RejoinAns / HomeNSAns (class BadMember of the model)
+	for i, m := range []struct{ name, member, raw string }{
+		{"rxdelay-string", "RxDelay", `"1"`}, {"rxdelay-2^63", "RxDelay", "9223372036854775808"}, {"rxdelay-fraction", "RxDelay", "1.5"},
+		{"rxdelay-object", "RxDelay", `{"v":1}`}, {"deveui-number", "DevEUI", "12"}, {"deveui-array", "DevEUI", `["01"]`},
+		{"devaddr-bool", "DevAddr", "true"}, {"dlsettings-number", "DLSettings", "149"}, {"dlsettings-object", "DLSettings", `{"OptNeg":true}`},
+		{"cflist-number", "CFList", "0"}, {"phypayload-array", "PHYPayload", "[1,2]"}, {"phypayload-number", "PHYPayload", "0"},
+	} {
+		b := g.randomAct(i % 4)
+		q := g.request(&b)
+		q.rawMember = map[string]string{m.member: m.raw}
+		switch m.member { // the Coq request carries the zero value for the refused member
+		case "RxDelay":
+			q.rxDelay = 0
+		case "DevEUI":
+			q.devEUI = nil
+		case "DevAddr":
+			q.devAddr = nil
+		case "DLSettings":
+			q.dls = nil
+		case "CFList":
+			q.cfl = nil
+		case "PHYPayload":
+			q.phy = nil
+		}
+		g.run(b.table(), q, "IMember", "member-bad-json-kind", fmt.Sprintf("member:%s:%s", m.name, b.describe()), nil)
+	}
+	{ // HomeNSReq: DevEUI of the wrong kind; a wrong kind in a member HomeNSReq does not have is ignored
+		q := &req{sender: "010203", receiver: "0102030405060708", txid: 77, mtype: "HomeNSReq", rawMember: map[string]string{"DevEUI": "12"}, omit: map[string]bool{"RxDelay": true}, null: map[string]bool{}}
+		g.run(&table{}, q, "IMember", "member-bad-json-kind", "member:homens:deveui-number", nil)
 	}
 	// `null` and `{}` are accepted by encoding/json: every field keeps its zero value
 	for _, body := range []string{"null", "{}"} {
@@ -444,5 +497,5 @@ func (g *G) homeNS(thorough bool) {
 		}
 	}
 	q := &req{sender: "010203", receiver: "0102030405060708", txid: 9, mtype: "HomeNSReq", devEUI: sp("01020304050607"), omit: map[string]bool{"RxDelay": true}, null: map[string]bool{}}
-	g.run(&table{}, q, "IMalformed", "homens", "homens:deveui-7-bytes", nil)
+	g.run(&table{}, q, "IMember", "homens", "homens:deveui-7-bytes", nil)
 }
